@@ -1,6 +1,7 @@
 import Nsq.Model.Line
 import Nsq.Model.Life
 import Nsq.Model.InFlight
+import Nsq.Model.Restart
 /-
 drv_e5: replays the op lines written by harness/e5/*_test.go through the Lean models
 (Life = C08 atomic, InFlight = C08 micro-step) and prints one canonical answer line per op.
@@ -90,7 +91,16 @@ def lifeOp (s : Life.St) (w : List String) : Option (Life.St × String) :=
         some (r2.1, ansStr r2.2)
       else some (r.1, ansStr r.2)
     | none => some (r.1, ansStr r.2)
-  | ["deliver", t, c, k, src, id] => ap (.deliver t c k.toNat! (src == "mem") id.toNat!)
+  | ["deliver", t, c, k, src, id] =>
+    let r := Life.step s (.deliver t c k.toNat! (src == "mem") id.toNat!)
+    if r.2 != Life.Ans.ok then some (r.1, ansStr r.2)
+    else
+      match Life.getChan r.1 t c with
+      | some C =>
+        match C.inflight.find? (fun e => e.1.id == id.toNat!) with
+        | some e => some (r.1, s!"ok att={e.1.attempts} ts={e.1.ts} body={hex e.1.body}")
+        | none => some (r.1, "ok ?")
+      | none => some (r.1, "ok ?")
   | ["fin", t, c, k, id] => ap (.fin t c k.toNat! id.toNat!)
   | ["req", t, c, k, id, d] => ap (.req t c k.toNat! id.toNat! (parseB d))
   | ["release", t, c, id] => ap (.release t c id.toNat!)
@@ -231,6 +241,7 @@ def microOp (m : MS) (w : List String) : MS × String :=
 structure DS where
   life : Life.St := Life.init 0
   micro : MS := {}
+  persist : Restart.Persist := { metadata := [], dq := [], closed := [] }
 
 partial def loop (h : IO.FS.Stream) (out : IO.FS.Stream) (st : DS) : IO Unit := do
   let line ← h.getLine
@@ -240,6 +251,17 @@ partial def loop (h : IO.FS.Stream) (out : IO.FS.Stream) (st : DS) : IO Unit := 
     let r := microOp st.micro w.tail
     out.putStrLn r.2
     loop h out { st with micro := r.1 }
+  else if w == ["closeall"] then
+    let p := Restart.closeAll st.life
+    out.putStrLn s!"ok closed=[{joinC ((sortNats p.closed).map toString)}]"
+    -- until `reload` the model state only keeps what is on disk (for the `files` line)
+    loop h out { st with persist := p, life := Restart.reload st.life.memCap p }
+  else if w.head? == some "reload" then
+    out.putStrLn "ok"
+    loop h out { st with life := Restart.reload (w.getD 1 "0").toNat! st.persist }
+  else if w == ["filesexact"] then
+    out.putStrLn (filesStr st.life)
+    loop h out st
   else
   match lifeOp st.life w with
   | some (s', a) =>
